@@ -45,9 +45,7 @@ theorem parseFrameP_eq (bs : Bytes) : parseFrameP bs = liftHdr (parseFrame bs) :
       · simp [liftHdr]
       · split
         · simp [liftHdr]
-        · split
-          · simp [liftHdr]
-          · split <;> simp [liftHdr]
+        · split <;> simp [liftHdr]
 
 theorem parseFrameP_np (bs : Bytes) (site : String) : parseFrameP bs ≠ .panic site := by
   rw [parseFrameP_eq]
